@@ -178,6 +178,8 @@ def make_value(spec, name, st, inputs):
         arity = int(spec[4:])
         return UFn(z3.Function("in_" + name, *([S] * arity + [B])), "bool")
     if isinstance(spec, tuple) and spec and spec[0] == "lit":
+        if spec[1] is not None and not isinstance(spec[1], (bool, int, float, complex, str, tuple, dict, list, set, frozenset)):
+            return Native(spec[1])  # a real Python object (an enum member): compared by identity, as in the code
         return spec[1]
     if isinstance(spec, tuple) and spec and spec[0] == "strcat":
         # a string with a literal skeleton and symbolic holes: ("strcat", [":param x: ", "str"]) -- holes are named <name>_<i>
